@@ -213,6 +213,16 @@ def build(rng, scale=1):
         g.add("unlambda", "gv := one\n\tfn := %s\n\tgv = func(a int) int { return -a }\n\t_ = gv\n\treturn out(%s)" % (lam, call))
     for body in ["defer func() { e.Ti(1) }()", "defer func() { useInt(2) }()", "defer func() { gv(3) }()", "defer func() { e.P.PM() }()", "defer func() { useInt(e.I0) }()", "defer func() { e.Ti(e.Fi()) }()"]:
         g.add("deferunlambda", "gv := func(a int) { e.t(out(\"gv\", a)) }\n\t_ = gv\n\t%s\n\tgv = func(a int) { e.t(out(\"gv2\", a)) }\n\te.I0 = 99\n\te.t(\"body\")\n\treturn out(e.I0)" % body)
+    # deferred calls of package-level function *variables* (local and of another package)
+    g.add("deferunlambda-pkgvar", "old := flag.Usage\n\tdefer func() { flag.Usage = old }()\n\tflag.Usage = func() { e.t(\"usage A\") }\n\tfunc() {\n\t\tdefer func() { flag.Usage() }()\n\t\tflag.Usage = func() { e.t(\"usage B\") }\n\t}()\n\treturn out(e.I0)")
+    # operands of type-parameter type (float instantiations: NaN, fractions) inside a generic helper
+    for sig, body, calls in [
+            ("[T float64 | int](a, b T) bool", "!(a < b)", ["e.F0, e.F1", "e.I0, e.I1", "e.F0, e.F0"]),
+            ("[T ~float32 | ~float64](x, y T) bool", "x+1 > y", ["e.F0, e.F1", "MyF(e.F0), MyF(0.5)", "0.5, 1.0"]),
+            ("[T ~float64](x T) bool", "x >= 1 && x < 2", ["e.F0", "1.5", "MyF(e.F1)"]),
+            ("[T ~int | ~int8](x, y T) bool", "!(x >= y)", ["e.I0, e.I1", "int8(1), int8(2)"]),
+            ("[T ~float64 | ~string](x, y T) bool", "!(x == y) || !(x <= y)", ["e.F0, e.F1", "e.S0, e.S1", "e.F0, e.F0"])]:
+        g.add("bool-typeparam", "return out(%s)\n}\n\nfunc §_h%s {\n\treturn %s" % (", ".join("§_h(%s)" % c for c in calls), sig, body))
     # ---- redundantSprint ----------------------------------------------------------------
     for c in ["fmt.Sprint(s)", 'fmt.Sprintf("%s", s)', 'fmt.Sprintf("%v", s)', "fmt.Sprint(Str{s})", 'fmt.Sprintf("%s", Str{t})', "fmt.Sprint(&PStr{s})", "fmt.Sprint(np)", 'fmt.Sprintf("%v", np)',
               "fmt.Sprint(e.Fs())", "fmt.Sprint(e.Err)", "fmt.Sprint(ns)"]:
@@ -285,7 +295,7 @@ def build(rng, scale=1):
 
 def render(items):
     """-> (go source, [(name, family)])"""
-    out = ["package scen\n\nimport (\n\t\"bytes\"\n\t\"fmt\"\n\t\"strings\"\n\t\"time\"\n)\n\nvar _ = bytes.Index\nvar _ = fmt.Sprint\nvar _ = strings.Index\nvar _ = time.Now\n"]
+    out = ["package scen\n\nimport (\n\t\"bytes\"\n\t\"flag\"\n\t\"fmt\"\n\t\"strings\"\n\t\"time\"\n)\n\nvar _ = bytes.Index\nvar _ = flag.Usage\nvar _ = fmt.Sprint\nvar _ = strings.Index\nvar _ = time.Now\n"]
     names = []
     for k, (fam, body) in enumerate(items):
         name = "S%04d" % k
@@ -387,6 +397,21 @@ def build12(rng, scale=1):
     g.add("nilval", "fn := func(err error) error {\n\t\tif err == nil {\n\t\t\treturn err\n\t\t}\n\t\treturn nil\n\t}\n\treturn out(fn(e.Err), fn(nil))")
     g.add("nilval", "fn := func(xs []int) ([]int, int) {\n\t\tif xs == nil {\n\t\t\treturn xs, 1\n\t\t}\n\t\treturn xs, 2\n\t}\n\treturn out(fn(e.Xs))")
     g.add("nilval", "fn := func(m map[string]int) map[string]int {\n\t\tif m == nil {\n\t\t\treturn m\n\t\t}\n\t\treturn nil\n\t}\n\treturn out(fn(e.M), fn(nil))")
+    # ... a nil pointer returned as an interface is not a nil interface; a user-defined nil; results by position
+    g.add("nilval-iface", "fn := func(p *MyErr) error {\n\t\tif p == nil {\n\t\t\treturn p\n\t\t}\n\t\treturn nil\n\t}\n\treturn out(fn(nil) == nil, fn(&MyErr{}) == nil)")
+    g.add("nilval-iface", "fn := func(p *PStr) (int, fmt.Stringer) {\n\t\tif p == nil {\n\t\t\treturn 1, p\n\t\t}\n\t\treturn 2, nil\n\t}\n\treturn out(fn(nil))")
+    g.add("nilval-iface", "fn := func(m map[string]int) any {\n\t\tif m == nil {\n\t\t\treturn m\n\t\t}\n\t\treturn nil\n\t}\n\treturn out(fn(nil) == nil, fn(e.M) == nil)")
+    g.add("nilval-iface", "return out(§_h(nil) == nil, §_h(e.P) == nil)\n}\n\nfunc §_h(p *Rec) Iface {\n\tif p == nil {\n\t\treturn p\n\t}\n\treturn nil")
+    g.add("nilval-shadow", "nil := e.Err\n\tfn := func(err error) error {\n\t\tif err == nil {\n\t\t\treturn err\n\t\t}\n\t\treturn e.Err\n\t}\n\treturn out(fn(e.Err), fn(nil))")
+    # caseOrder: a type-parameter case is not an interface case
+    g.add("caseorder-typeparam", "return out(§_h[string](e.Any), §_h[Str](e.Any), §_h[int](1), §_h[*MyErr](e.Err))\n}\n\nfunc §_h[P any](x any) string {\n\tswitch x.(type) {\n\tcase P:\n\t\treturn \"first\"\n\tcase int:\n\t\treturn \"second\"\n\tcase error:\n\t\treturn \"third\"\n\t}\n\treturn \"none\"")
+    g.add("caseorder-typeparam", "return out(§_h[Str](e.Any), §_h[*PStr](1), §_h[fmt.Stringer](Str{\"a\"}))\n}\n\nfunc §_h[P fmt.Stringer](x any) string {\n\tswitch x.(type) {\n\tcase P:\n\t\treturn \"first\"\n\tcase Str:\n\t\treturn \"second\"\n\tcase int:\n\t\treturn \"third\"\n\t}\n\treturn \"none\"")
+    # badCond: textually equal operands of different types (untyped shifts take the other operand's type)
+    g.add("badcond-untyped-shift", "sh := uint(e.I0&7) + 8\n\tr := 1<<sh < int8(100) && 1<<sh > int64(200)\n\treturn out(r)")
+    g.add("badcond-untyped-shift", "sh := uint(8)\n\tr := 1<<sh < uint8(3) && 1<<sh > 5\n\treturn out(r)")
+    # dupSubExpr: operands that are textually equal but yield a fresh value on every evaluation
+    for c in ["&Rec{A: 1} == &Rec{A: 1}", "&Rec{} != &Rec{}", "(&Rec{}) == (&Rec{})", "&[2]int{} == &[2]int{}", "&struct{ a int }{1} == &struct{ a int }{1}"]:
+        g.add("dupsub-fresh", "r := %s\n\treturn out(r)" % c)
     # dupSubExpr: both operands are the same value
     for c in ["x == x", "x != x", "x - x", "x & x", "x | x", "x < x", "x >= x", "s == s", "s != s", "e.I0 == e.I0", "e.Xs[0] == e.Xs[0]", "e.P.A - e.P.A", "gb && gb", "gb || gb", "x / x", "x % x",
               "f == f", "f != f", "f - f", "f < f", "mf == mf", "mf != mf", "mf - mf", "e.Fi() == e.Fi()", "e.Fi() - e.Fi()", "e.Ff() == e.Ff()", "(x + y) == (x + y)"]:
